@@ -148,6 +148,16 @@ pub fn parsegen(prop: &str, seed: u64, runs: usize) -> Vec<J> {
                 let (header, prog) = valid_program(s);
                 let lay = Layout::random(s);
                 let printed = print_test(&header, &prog, &lay);
+                if run % 11 == 10 {
+                    // an error that is reported at the very end of the input, where the input ends (without a line break) in a
+                    // comment whose last character takes several bytes
+                    let tail = ["é", "日本", "\u{1F600}", "ß", "x"][rng.gen_range(0..5)];
+                    let open = ["loop(i,2)", "while(1)", "loop(i,2)\nwhile(0)"][rng.gen_range(0..3)];
+                    let last = ["1 1", "let a = 1;", "", "end", "(1", "bits(2,"][rng.gen_range(0..6)];
+                    let t = format!("A B\n{open}\n1 0\n{last}{}# c {tail}", if rng.gen_bool(0.5) { " " } else { "" });
+                    push(&mut out, prop, &t, None, 0, "error at the end of input inside a comment");
+                    continue;
+                }
                 match if run % 7 == 6 { 5 + run % 2 } else { run % 5 } {
                     5 => {
                         // a header whose names are separated by whatever some definition of white space includes
